@@ -1056,6 +1056,9 @@ class mulgrid(object):
                 i = self.columnlist.index(self.column[olditem])
                 self.columnlist[i].name = newitem
                 self.column[newitem] = self.column.pop(olditem)
+            # connections are filed under the names of their columns:
+            self.connection = dict([((c.column[0].name, c.column[1].name), c)
+                                    for c in self.connectionlist])
             self.setup_block_name_index()
             self.setup_block_connection_name_index()
             return True
